@@ -121,4 +121,13 @@ theorem store_keys_quote_ids :
     cache_responseKeyFormat = [114,101,115,112,58,37,113,58,37,113] ∧         -- "resp:%q:%q"
     store_requestKindFormat = [37,115,37,113] := by decide                    -- "%s%q" (prefix, backend ID)
 
+/-- T1: the memcache layer answers no authorisation or routing question itself — the agent
+    identity check, the backend lookup for end users and the backend CRUD operations are plain
+    delegations to the datastore-backed store, so `AppAuth` (which has no cache for them) is the
+    right model: a re-registered or cleaned-up backend is forgotten at once. -/
+theorem authorisation_never_cached :
+    "IsBackendUserAllowed" ∈ cache_pureDelegations ∧ "LookupBackend" ∈ cache_pureDelegations ∧
+    "AddBackend" ∈ cache_pureDelegations ∧ "DeleteBackend" ∈ cache_pureDelegations ∧
+    "ListBackends" ∈ cache_pureDelegations ∧ "ListPendingRequests" ∈ cache_pureDelegations := by decide
+
 end InvProxy.C17
